@@ -184,9 +184,16 @@ def workload(ctx):
             a, b, cc = (float(x) for x in rng.uniform(2, 12, 3))
             c = [[a, b, cc], [a, a, cc], [a, a, a], [a, b, b]][int(rng.integers(4))] + [90.0, 90.0, 90.0]
         elif kind == "special":
-            ang = [float(rng.choice([45.0, 60.0, 90.0, 90.0, 120.0, 135.0])) for _ in range(3)]
-            base = float(rng.choice([1.0, 1.5, 2.0, 3.0]))
-            c = [base * float(rng.integers(2, 16)) for _ in range(3)] + ang
+            if rng.random() < 0.5:
+                ang = [float(rng.choice([45.0, 60.0, 90.0, 90.0, 120.0, 135.0])) for _ in range(3)]
+                base = float(rng.choice([1.0, 1.5, 2.0, 3.0]))
+                c = [base * float(rng.integers(2, 16)) for _ in range(3)] + ang
+            else:
+                # one oblique special angle, the other two 90 deg: lattice vectors lying exactly between two Cartesian axes
+                ang = [90.0, 90.0, 90.0]
+                ang[int(rng.integers(3))] = float(rng.choice([45.0, 135.0, 60.0, 120.0]))
+                c = [float(x) for x in rng.uniform(2, 16, 3)] if rng.random() < 0.5 else [float(rng.integers(2, 16)) for _ in range(3)]
+                c = c + ang
             if oracle.gram_det_angular(c) < 0.05:
                 continue
         elif kind == "ties":
